@@ -5,7 +5,7 @@ RULE = ("schemas with 1..3 abstract types and 0..4 concrete types implementing /
         "multisection slot per abstract type plus single slots addressed by a fixed name whose type is abstract (any order), 0..2 generated component packages adding implementers, some of them ALSO imported by the schema itself ('<import package=…/>': a '%import' of such a package is a no-op); texts of '<type/>' "
         "lines for every kind of type name (implementer, extender, non-implementer, the abstract type itself, package type, "
         "unknown) with '%import' lines before, between and after; sequences of up to 4 loads on one schema object; all '%import' sequences of length <= 3 over three packages against schemas importing none / one / two of them, each followed by three probe loads per package type (type alone, type before its '%import', type after it). The "
-        "expected outcome is computed line by line from the statement (visible implementers = static ones + those imported "
+        "'%import' lines together with overrides reaching into sections of static and imported types (ovimport.py: real vs model vs hand-edited text). The expected outcome is computed line by line from the statement (visible implementers = static ones + those imported "
         "earlier in this load). non-trivial = at least one section line; distinct by (schema, text)")
 
 
@@ -281,6 +281,10 @@ def run(ctx):
                     real = F.load_real(sd)
                     vocab = _vocabulary(real)
             ctx.sample({"lines": texts[0], "schema_level_imports": list(simports), "expected": expected(abss, con, impl, pkgs, bad, texts[0], slots, simports)})
+        # '%import' lines and overrides TOGETHER, overrides reaching into sections (C01_load_accept_iff / C02_load_value_eq over
+        # conformsI / denoteI of the edited items): real vs model, real vs the hand-edited text
+        from .. import ovimport
+        ovimport.run_stream(ctx, "C12")
         # directed history: two packages define the same type name, only the first implements the abstract type
         sd = F.SchemaD([F.SectD("ab0", "*", True, False, "s_ab0")], [F.AbsD("ab0")])
         pa = pk.add_component([F.TypeD("shared", [], implements="ab0")])
